@@ -102,7 +102,9 @@ DomsC == { <<Decl("x", "real", MInf, PInf), Decl("y", "real", Fin(-1, 1), Fin(1,
 (* family D: objectives *)
 TermD == {U("abs", x), U("abs", B("sub", x, y)), N2("min", x, y), N2("max", x, y), N2("max", x, Num(0, 1)),
           N3("min", x, y, Num(1, 2)), U("abs", N2("min", x, y)), N2("max", U("abs", x), y),
-          N2("and", p, q), N2("or", p, U("not", q)), B("xor", p, q), x, p}
+          N2("and", p, q), N2("or", p, U("not", q)), B("xor", p, q), x, p,
+          U("abs", B("sub", N2("min", x, y), Num(5, 1))), U("abs", B("add", N2("max", x, y), Num(5, 1))),
+          U("abs", B("sub", U("abs", x), Num(5, 1))), N2("max", B("sub", N2("min", x, y), Num(5, 1)), Num(-10, 1))}
 ObjD == TermD
         \cup {B("mul", k, t) : k \in {Num(-2, 1), Num(1, 2)}, t \in TermD}
         \cup {B("div", t, Num(-2, 1)) : t \in TermD}
@@ -113,6 +115,24 @@ DomsD == { <<Decl("x", "real", Fin(-2, 1), Fin(1, 1)), Decl("y", "int", Fin(-1, 
 ConsD == {Con(B("add", x, y), "le", Num(1, 1)), Con(B("sub", x, p), "ge", Num(-2, 1)),
           Con(U("abs", x), "ge", Num(1, 2)), Asrt(B("implies", p, q))}
 
+---------------------------------------------------------------------------
+(* family F: sign-known abs and dominated min/max operands around nested    *)
+(* piecewise terms: the operand of abs is provably <= 0 or >= 0 (shifted by *)
+(* +-5), so abs is lowered without an auxiliary and the value requirement   *)
+(* must be passed on (reversed for the negative side) to the nested term;   *)
+(* max{t, 10} / min{t, -10} prune the dominated operand                     *)
+InnerF == {N2("min", x, y), N2("max", x, y), U("abs", x), N2("min", x, Num(1, 1)),
+           N2("max", y, Num(-1, 2)), U("abs", B("sub", x, y)), N3("max", x, y, Num(1, 2))}
+ShiftF == UNION {{B("sub", t, Num(5, 1)), B("add", t, Num(5, 1)), B("sub", Num(-5, 1), t),
+                  U("neg", B("add", t, Num(5, 1))), B("mul", Num(-1, 1), B("sub", Num(5, 1), t))} : t \in InnerF}
+TermF == {U("abs", sh) : sh \in ShiftF}
+         \cup {N2("max", sh, Num(-10, 1)) : sh \in ShiftF} \cup {N2("min", sh, Num(10, 1)) : sh \in ShiftF}
+         \cup {N2("max", U("abs", sh), Num(1, 1)) : sh \in ShiftF}
+ConsF == {Con(t, c, k) : t \in TermF, c \in Cmps, k \in {Num(4, 1), Num(13, 2)}}
+         \cup {Con(B("mul", Num(-2, 1), t), c, k) : t \in TermF, c \in {"le", "ge"}, k \in {Num(-8, 1), Num(-13, 1)}}
+         \cup {Con(B("sub", Num(1, 1), t), c, Num(-3, 1)) : t \in TermF, c \in {"le", "ge"}}
+DomsF == { <<Decl("x", "real", Fin(0, 1), Fin(3, 1)), Decl("y", "real", Fin(0, 1), Fin(3, 1))>>,
+           <<Decl("x", "int", Fin(-2, 1), Fin(2, 1)), Decl("y", "real", Fin(-1, 1), Fin(3, 2))>> }
 ---------------------------------------------------------------------------
 (* family E: naming and well-formedness corner cases (C08)                  *)
 NamedCon(nm, c) == [c EXCEPT !.name = nm]
@@ -142,8 +162,8 @@ ConsE == {NamedCon("a", Con(U("abs", y), "ge", Num(1, 2))),
           Con(N2("max", U("abs", y), InfM), "ge", Num(1, 2)),
           Con(U("abs", N2("min", x, Num(3, 1))), "le", Num(2, 1))}
 ---------------------------------------------------------------------------
-Doms == CASE Family = "A" -> DomsA [] Family = "B" -> DomsB [] Family = "C" -> DomsC [] Family = "D" -> DomsD [] Family = "E" -> DomsE
-Cons == CASE Family = "A" -> ConsA [] Family = "B" -> ConsB [] Family = "C" -> ConsC [] Family = "D" -> ConsD [] Family = "E" -> ConsE
+Doms == CASE Family = "A" -> DomsA [] Family = "B" -> DomsB [] Family = "C" -> DomsC [] Family = "D" -> DomsD [] Family = "E" -> DomsE [] Family = "F" -> DomsF
+Cons == CASE Family = "A" -> ConsA [] Family = "B" -> ConsB [] Family = "C" -> ConsC [] Family = "D" -> ConsD [] Family = "E" -> ConsE [] Family = "F" -> ConsF
 Pre  == CASE Family = "C" -> BoundRowsC [] OTHER -> {<<>>}
 Objs == CASE Family = "D" -> {<<s, o>> : s \in {"min", "max"}, o \in ObjD}
           [] Family = "C" -> {<<"min", U("abs", x)>>, <<"max", N2("min", x, y)>>, <<"sat", Num(0, 1)>>}
